@@ -327,9 +327,55 @@ def add_enum_and_user(doc: Dict[str, Any], rnd: random.Random) -> str:
     return f"add_enum_and_user:{en}"
 
 
+def add_inheritance_conflict(doc: Dict[str, Any], rnd: random.Random) -> str:
+    """Two parents declare the same property name differently and the child does not redeclare it:
+    which declaration wins must be decided by the model alone."""
+    tag = _fresh(rnd, "")
+    names = rnd.sample(NAME_POOL, rnd.randint(1, 3))
+    left = {"name": f"SimLeft{tag}", "properties": [{"name": n, "type": _b("string"), "documentation": f"Left {n}."} for n in names]}
+    right = {"name": f"SimRight{tag}", "properties": [{"name": n, "type": _b(rnd.choice(["uinteger", "boolean", "string"])), "optional": True, "documentation": f"Right {n}."} for n in names]}
+    how = rnd.choice(["ee", "em", "mm", "me"])
+    child: Dict[str, Any] = {"name": f"SimDerived{tag}", "properties": [{"name": "own" + tag, "type": _b("boolean")}]}
+    l, r_ = _r(left["name"]), _r(right["name"])
+    if how == "ee":
+        child["extends"] = [l, r_]
+    elif how == "mm":
+        child["mixins"] = [l, r_]
+    elif how == "em":
+        child["extends"], child["mixins"] = [l], [r_]
+    else:
+        child["extends"], child["mixins"] = [r_], [l]
+    order = [left, right, child]
+    if rnd.random() < 0.5:
+        order = [child, right, left]  # declaration order in the file must not matter either
+    doc["structures"].extend(order)
+    return f"add_inheritance_conflict:{how}:{','.join(names)}"
+
+
+def add_twin_literals(doc: Dict[str, Any], rnd: random.Random) -> str:
+    """Two structures whose equally named property holds an anonymous literal of the same shape
+    (generated nested-type names may collide)."""
+    tag = _fresh(rnd, "")
+    pn = rnd.choice(NAME_POOL)
+    lit = lambda: {"kind": "literal", "value": {"properties": [{"name": "a", "type": _b("string")}, {"name": "b", "type": _b("boolean"), "optional": True}]}}  # noqa: E731
+    lit2 = {"kind": "literal", "value": {"properties": [{"name": "a", "type": _b("uinteger")}]}}
+    doc["structures"].append({"name": f"SimTwinA{tag}", "properties": [{"name": pn, "type": lit()}]})
+    doc["structures"].append({"name": f"SimTwinB{tag}", "properties": [{"name": pn, "type": lit() if rnd.random() < 0.5 else lit2, "optional": True}]})
+    return f"add_twin_literals:{pn}"
+
+
+def add_twin_enums(doc: Dict[str, Any], rnd: random.Random) -> str:
+    tag = _fresh(rnd, "")
+    vals = [{"name": "Alpha", "value": "alpha"}, {"name": "Beta", "value": "beta"}]
+    doc["enumerations"].append({"name": f"SimTwinEnumA{tag}", "type": _b("string"), "values": copy.deepcopy(vals)})
+    doc["enumerations"].append({"name": f"SimTwinEnumB{tag}", "type": _b("string"), "values": copy.deepcopy(vals), "supportsCustomValues": True})
+    return "add_twin_enums"
+
+
 SAFE_EDITS: List[Callable[[Dict[str, Any], random.Random], str]] = [
     add_structure, add_enumeration, add_enum_member, add_request, add_notification, drop_message, add_property,
     add_rich_structure, add_rich_structure, add_rich_structure, add_alias, add_rich_request, add_bare_notification, add_enum_and_user,
+    add_inheritance_conflict, add_inheritance_conflict, add_twin_literals, add_twin_enums,
 ]
 
 
